@@ -11,6 +11,11 @@
 //     (ev-locup xRID ASN EMB)                              Loc-RIB virtual peer -> loc_rib_peer_up
 //     (ev-flush (peer IP ASN ID) UPTS POST (chgs (chg SRC FAM AP NLRIS ATTRS NH TS)...) (embs EMB...))
 //                                                          apply_snapshot* ; flush_peer_snapshot (messages sorted)
+//     (ev-live (cfg LRID LASN LHOLD AP) (popen RASN RHOLD RRID) (acts (ann PID xNLRI)|(wd PID xNLRI)...) LATE (opens SENT RECV) (embs EMB...))
+//                                                          END-TO-END: a real session (rig.rs: accept_connection, run_select,
+//                                                          on_established, finish_session) on a real TableManager with the REAL
+//                                                          BmpClient::serve (policy all) connected before (and, LATE, also while)
+//                                                          the session is up; the bytes serve wrote, canonicalised (canon_bmp)
 //     (ev-dump xRID (chg4 CHG...) (chg6 CHG...))           dump_table on a TableManager holding exactly these paths;
 //                                                          CHG = (PFX (path SRC NH ATTRS)...) in collect_loc_rib_paths order
 //   SRC = (src IP IP RASN LASN RID) ; ATTRS = none | (ATTR...) ; REASON = none|hold|fsm|admin|io|(remote MON)|(local MON)
@@ -34,6 +39,9 @@ use std::panic::{AssertUnwindSafe, catch_unwind};
 use std::sync::Arc;
 
 use crate::table_manager::{AdjRibInChange, AdjRibOutChange, LocRibChange};
+
+#[path = "/verif/harness/daemon/rig.rs"]
+mod rig;
 
 fn src_of(t: &Term) -> Option<Arc<table::Source>> {
     let a = t.tagged("src")?;
@@ -241,6 +249,7 @@ fn build_item(t: &Term) -> Option<Built> {
             emb_tags(&emb, &mut tags);
             Some(Built { term: with_emb(kind, a, &emb), real: Real::Bmp(msg), embs: emb.into_iter().map(|e| (false, e)).collect(), tags })
         }
+        "ev-live" if a.len() == 6 => build_live(a),
         "ev-dump" if a.len() == 3 => build_dump(t, a),
         "ev-flush" if a.len() == 5 => build_flush(a),
         k if k.starts_with("ev-") => None,
@@ -498,6 +507,344 @@ fn build_flush(a: &[Term]) -> Option<Built> {
     Some(Built { term, real: Real::Many(reals), embs, tags })
 }
 
+
+// ------------------------------------------------------------------ end-to-end: real session -> real serve
+/// What one end-to-end scenario produced: bytes written by the serve connected before the session came up, by
+/// the one connected while it was up, and the OPEN frame this speaker really sent to the peer.
+struct LiveOut {
+    early: Vec<u8>,
+    late: Vec<u8>,
+    sent_open: Vec<u8>,
+}
+
+struct LiveCfg {
+    /// ADD-PATH (send+receive, IPv4 unicast) configured locally and advertised by the peer
+    ap: bool,
+    lrid: u32,
+    lasn: u32,
+    lhold: u64,
+    rasn: u32,
+    rhold: u16,
+    rrid: u32,
+    late: bool,
+}
+
+/// UPDATE frame the remote speaker sends: announcement (ORIGIN IGP, AS_PATH [rasn], NEXT_HOP 10.0.0.1) or
+/// withdrawal of one IPv4 prefix (wire form)
+fn live_open_frame(asn: u32, hold: u16, rid: u32, ap: bool) -> Vec<u8> {
+    let mut f = rig::open_frame(asn, hold, rid);
+    if ap {
+        // append the ADD-PATH capability (code 69: IPv4 unicast, send+receive) to the capability parameter
+        let cap = [69u8, 4, 0, 1, 1, 3];
+        f.extend_from_slice(&cap);
+        let n = f.len() as u16;
+        f[16..18].copy_from_slice(&n.to_be_bytes());
+        f[28] += cap.len() as u8; // optional parameters length
+        f[30] += cap.len() as u8; // capability parameter length
+    }
+    f
+}
+
+/// a Rig (rig.rs) whose peer is configured with ADD-PATH send+receive for IPv4 unicast; `peer_params` of rig.rs
+/// with `families` filled (the struct literal is the only copied code)
+async fn rig_with_addpath(cfg: rig::RigCfg) -> rig::Rig {
+    use crate::event::*;
+    let (tx, _rx) = tokio::sync::mpsc::unbounded_channel();
+    let (bfd_tx, _bfd_rx) = tokio::sync::mpsc::unbounded_channel();
+    let mut g = Global::new(tx, bfd_tx);
+    g.asn = cfg.asn;
+    g.router_id = Ipv4Addr::from(cfg.rid);
+    let global: GlobalHandle = Arc::new(tokio::sync::RwLock::new(g));
+    let tables: TableHandle = Arc::new(crate::table_manager::TableManager::new(1));
+    let remote_addr: IpAddr = "127.0.0.1".parse().unwrap();
+    let mut families = fnv::FnvHashMap::default();
+    families.insert(Family::IPV4, 3u8);
+    let mut send_max = fnv::FnvHashMap::default();
+    send_max.insert(Family::IPV4, 4usize);
+    let params = PeerParams {
+        remote_addr,
+        remote_port: Global::BGP_PORT,
+        expected_remote_asn: cfg.expected,
+        local_asn: 0,
+        passive: true,
+        rs_client: false,
+        route_reflector: RouteReflectorConfig::default(),
+        delete_on_disconnected: false,
+        admin_down: false,
+        state: SessionState::Idle,
+        holdtime: cfg.hold,
+        connect_retry_time: PeerParams::DEFAULT_CONNECT_RETRY_TIME,
+        multihop_ttl: None,
+        ttl_security: None,
+        password: None,
+        families,
+        send_max,
+        prefix_limits: fnv::FnvHashMap::default(),
+        graceful_restart: None,
+        llgr: None,
+        bfd_config: None,
+        neighbor_interface: None,
+        bind_interface: None,
+        export_policy: None,
+    };
+    global.write().await.add_peer(params, None).unwrap();
+    rig::Rig { cfg, global, tables, remote_addr, conns: [None, None], closed_frames: [Vec::new(), Vec::new()], storm: false }
+}
+
+fn live_update(announce: bool, nlri: &[u8], rasn: u32) -> Vec<u8> {
+    let mut b: Vec<u8> = Vec::new();
+    if announce {
+        let mut a: Vec<u8> = vec![0x40, 1, 1, 0, 0x40, 2, 6, 2, 1];
+        a.extend_from_slice(&rasn.to_be_bytes());
+        a.extend_from_slice(&[0x40, 3, 4, 10, 0, 0, 1]);
+        b.extend_from_slice(&[0, 0]);
+        b.extend_from_slice(&(a.len() as u16).to_be_bytes());
+        b.extend_from_slice(&a);
+        b.extend_from_slice(nlri);
+    } else {
+        b.extend_from_slice(&(nlri.len() as u16).to_be_bytes());
+        b.extend_from_slice(nlri);
+        b.extend_from_slice(&[0, 0]);
+    }
+    let mut f = vec![0xffu8; 16];
+    f.extend_from_slice(&((19 + b.len()) as u16).to_be_bytes());
+    f.push(2);
+    f.extend_from_slice(&b);
+    f
+}
+
+async fn run_live(cfg: &LiveCfg, acts: &[(bool, Vec<u8>)]) -> Option<LiveOut> {
+    use crate::fsm::Role;
+    let rcfg = rig::RigCfg { rid: cfg.lrid, asn: cfg.lasn, hold: cfg.lhold, expected: cfg.rasn };
+    let mut rg = if cfg.ap { rig_with_addpath(rcfg).await } else { rig::Rig::new(rcfg).await };
+    let mut early = crate::bmp::verif_c19_bmp::LiveServe::start(rg.global.clone(), rg.tables.clone(), 4).await;
+    if !rg.connect(Role::Passive).await {
+        return None;
+    }
+    rg.pump().await;
+    rg.client_write(Role::Passive, &live_open_frame(cfg.rasn, cfg.rhold, cfg.rrid, cfg.ap)).await;
+    rg.pump().await;
+    rg.client_write(Role::Passive, &rig::keepalive_frame()).await;
+    rg.pump().await;
+    early.drain().await;
+    // what this speaker sent so far: its OPEN is the first frame
+    let mut sent = Vec::new();
+    if let Some(c) = rg.conns[rig::idx(Role::Passive)].as_mut() {
+        if let Some(cl) = c.client.as_mut() {
+            let mut tmp = [0u8; 8192];
+            while let Ok(n) = cl.try_read(&mut tmp) {
+                if n == 0 {
+                    break;
+                }
+                sent.extend_from_slice(&tmp[..n]);
+            }
+        }
+    }
+    let n = bgp_len(&sent)?;
+    let sent_open = sent[..n].to_vec();
+    if rg.fsm_state(Role::Passive) != crate::fsm::State::Established {
+        return None;
+    }
+    for (ann, nlri) in acts {
+        rg.client_write(Role::Passive, &live_update(*ann, nlri, cfg.rasn)).await;
+        rg.pump().await;
+        early.drain().await;
+    }
+    let late = if cfg.late {
+        let mut l = crate::bmp::verif_c19_bmp::LiveServe::start(rg.global.clone(), rg.tables.clone(), 4).await;
+        l.drain().await;
+        Some(l)
+    } else {
+        None
+    };
+    rg.client_close(Role::Passive).await;
+    rg.pump().await;
+    early.drain().await;
+    let late = match late {
+        Some(mut l) => {
+            l.drain().await;
+            l.finish().await
+        }
+        None => vec![],
+    };
+    Some(LiveOut { early: early.finish().await, late, sent_open })
+}
+
+fn bgp_len(b: &[u8]) -> Option<usize> {
+    if b.len() < 19 {
+        return None;
+    }
+    let n = ((b[16] as usize) << 8) | b[17] as usize;
+    if n < 19 || n > b.len() { None } else { Some(n) }
+}
+
+/// debugging aid: one line per BMP message of a stream
+fn describe_bmp(b: &[u8]) -> Vec<String> {
+    let mut out = vec![];
+    let mut p = 0;
+    while p + 6 <= b.len() {
+        let len = u32::from_be_bytes([b[p + 1], b[p + 2], b[p + 3], b[p + 4]]) as usize;
+        let ty = b[p + 5];
+        if len < 6 || p + len > b.len() {
+            out.push(format!("BAD at {}", p));
+            break;
+        }
+        let body = &b[p + 6..p + len];
+        let mut s = format!("type={} len={}", ty, len);
+        if ty != 4 && ty != 5 && body.len() >= 42 {
+            s += &format!(" ptype={} flags={} addr={:?} asn={} id={:?}", body[0], body[1], &body[22..26], u32::from_be_bytes([body[26], body[27], body[28], body[29]]), &body[30..34]);
+            let rest = &body[42..];
+            if ty == 0 {
+                for f in split_frames(rest) {
+                    s += &format!(" {} | ap: {}", parse_back(f, false), parse_back(f, true));
+                }
+            } else if ty == 3 {
+                for f in split_frames(&rest[20..]) {
+                    s += &format!(" {}", parse_back(f, false));
+                }
+            } else if ty == 2 {
+                s += &format!(" reason={} {:?}", rest[0], &rest[1..]);
+            }
+        }
+        out.push(s);
+        p += len;
+    }
+    out
+}
+
+/// Canonical form of what a real serve wrote: Initiation messages are removed (host name, version string: not
+/// inputs; `ok` = each had a non-empty sysDescr starting with "RustyBGP" and a sysName TLV), wall-clock
+/// timestamps of the per-peer headers and the TCP ports of Peer Up are zeroed.  Also returns, per remaining
+/// message, the bytes after its fixed-size part (the embedded BGP PDUs).
+fn canon_bmp(b: &[u8]) -> Option<(Vec<u8>, Vec<(bool, Vec<u8>)>, bool)> {
+    let mut out = vec![];
+    let mut embs = vec![];
+    let mut init_ok = true;
+    let mut p = 0;
+    while p < b.len() {
+        if p + 6 > b.len() {
+            return None;
+        }
+        let len = u32::from_be_bytes([b[p + 1], b[p + 2], b[p + 3], b[p + 4]]) as usize;
+        let ty = b[p + 5];
+        if len < 6 || p + len > b.len() {
+            return None;
+        }
+        let mut m = b[p..p + len].to_vec();
+        p += len;
+        if ty == 4 {
+            let body = &m[6..];
+            let descr_ok = body.len() >= 12 && body[0..2] == [0, 1] && &body[4..12] == b"RustyBGP";
+            init_ok = init_ok && descr_ok;
+            continue;
+        }
+        if m.len() < 48 {
+            return None;
+        }
+        for x in &mut m[6 + 34..6 + 42] {
+            *x = 0;
+        }
+        let fixed = match ty {
+            0 => 48,
+            2 => 49,
+            3 => {
+                if m.len() < 68 {
+                    return None;
+                }
+                for x in &mut m[48 + 16..48 + 20] {
+                    *x = 0;
+                }
+                68
+            }
+            _ => return None,
+        };
+        if m.len() < fixed {
+            return None;
+        }
+        // Adj-RIB-In (pre / post policy) Route Monitoring of a Global-instance peer: the session's add-path setting applies
+        let adj_in = ty == 0 && m[6] == 0 && (m[7] & !0x40 & !0x80) == 0;
+        embs.push((adj_in, m[fixed..].to_vec()));
+        out.extend_from_slice(&m);
+    }
+    Some((out, embs, init_ok))
+}
+
+/// `(ev-live (cfg LRID LASN LHOLD AP) (popen RASN RHOLD RRID) (acts (ann PID xNLRI)|(wd PID xNLRI)...) LATE (opens SENT RECV) (embs EMB...))`
+fn build_live(a: &[Term]) -> Option<Built> {
+    let c = a[0].tagged("cfg")?;
+    let po = a[1].tagged("popen")?;
+    if c.len() != 4 || po.len() != 3 {
+        return None;
+    }
+    let cfg = LiveCfg {
+        ap: c[3].as_bool()?,
+        lrid: u32_of(&c[0])?,
+        lasn: u32_of(&c[1])?,
+        lhold: c[2].as_u64()?,
+        rasn: u32_of(&po[0])?,
+        rhold: u16_of(&po[1])?,
+        rrid: u32_of(&po[2])?,
+        late: a[3].as_bool()?,
+    };
+    if !(cfg.lhold == 0 || (3..=65535).contains(&cfg.lhold)) || cfg.rhold == 1 || cfg.rhold == 2 {
+        return None;
+    }
+    let mut acts = vec![];
+    for x in a[2].tagged("acts")? {
+        let l = x.as_list()?;
+        if l.len() != 3 {
+            return None;
+        }
+        let ann = match l[0].as_atom()? {
+            "ann" => true,
+            "wd" => false,
+            _ => return None,
+        };
+        let pid = u32_of(&l[1])?;
+        let n = l[2].as_bytes()?;
+        nlri_of(Family::IPV4, &n)?;
+        if !cfg.ap && pid != 0 {
+            return None;
+        }
+        // wire form of the NLRI: with ADD-PATH the path identifier precedes the prefix
+        let mut w = if cfg.ap { pid.to_be_bytes().to_vec() } else { vec![] };
+        w.extend_from_slice(&n);
+        acts.push((ann, w));
+    }
+    let rt = tokio::runtime::Builder::new_current_thread().enable_all().build().ok()?;
+    let o = rt.block_on(run_live(&cfg, &acts))?;
+    drop(rt);
+    let (mut bytes, mut embs, ok1) = canon_bmp(&o.early)?;
+    let (b2, e2, ok2) = canon_bmp(&o.late)?;
+    bytes.extend_from_slice(&b2);
+    embs.extend(e2);
+    let sent = parse_back(&o.sent_open, false);
+    let recv = parse_back(&live_open_frame(cfg.rasn, cfg.rhold, cfg.rrid, cfg.ap), false);
+    let term = Term::tag(
+        "ev-live",
+        vec![
+            a[0].clone(),
+            a[1].clone(),
+            a[2].clone(),
+            a[3].clone(),
+            Term::tag("opens", vec![sent, recv]),
+            Term::tag("embs", embs.iter().map(|e| Term::bytes(&e.1)).collect()),
+        ],
+    );
+    let mut tags = vec![
+        Term::atom("ev-live"),
+        Term::atom(if cfg.late { "late-serve" } else { "early-serve" }),
+        Term::atom(if cfg.ap { "ap-on" } else { "ap-off" }),
+        Term::atom(format!("lacts-{}", acts.len().min(3))),
+    ];
+    if !(ok1 && ok2) {
+        tags.push(Term::atom("initiation-odd"));
+    }
+    let ap = cfg.ap;
+    let embs = embs.into_iter().filter(|e| !e.1.is_empty()).map(|e| (ap && e.0, e.1)).collect();
+    Some(Built { term, real: Real::Raw(bytes), embs, tags })
+}
+
 fn run_dcase(line: &str) -> String {
     run_case_with(line, "dcase", "items", &build_item)
 }
@@ -653,6 +1000,51 @@ fn g_flush(r: &mut Rng) -> Term {
     )
 }
 
+fn g_live(r: &mut Rng) -> Term {
+    let lasn = *r.pick(&[65009u32, 64512, 4200000009]);
+    let rasn = *r.pick(&[65001u32, 65002, 4200000001]);
+    let lrid = u32::from_be_bytes(*r.pick(&[[10u8, 0, 0, 9], [192, 168, 0, 9]]));
+    let rrid = u32::from_be_bytes(*r.pick(&[[10u8, 0, 0, 1], [1, 1, 1, 1]]));
+    let late = r.chance(1, 2);
+    let ap = r.chance(1, 3);
+    // announcements of prefixes not currently announced, withdrawals of announced ones; at most one route left
+    let pool: [[u8; 4]; 3] = [[24, 192, 0, 2], [24, 192, 0, 3], [16, 10, 7, 0]];
+    let mut have: Vec<(u32, Vec<u8>)> = vec![];
+    let mut acts = vec![];
+    let n = r.below(5);
+    for _ in 0..n {
+        if !have.is_empty() && r.chance(1, 2) {
+            let i = r.below(have.len() as u64) as usize;
+            let (pid, p) = have.remove(i);
+            acts.push(Term::list(vec![Term::atom("wd"), Term::nat(pid), Term::bytes(&p)]));
+        } else {
+            let p = r.pick(&pool);
+            let p = p[..1 + (p[0] as usize).div_ceil(8)].to_vec();
+            if have.iter().any(|x| x.1 == p) {
+                continue;
+            }
+            let pid = if ap { 1 + r.below(3) as u32 } else { 0 };
+            have.push((pid, p.clone()));
+            acts.push(Term::list(vec![Term::atom("ann"), Term::nat(pid), Term::bytes(&p)]));
+        }
+    }
+    while have.len() > 1 {
+        let (pid, p) = have.remove(0);
+        acts.push(Term::list(vec![Term::atom("wd"), Term::nat(pid), Term::bytes(&p)]));
+    }
+    Term::tag(
+        "ev-live",
+        vec![
+            Term::tag("cfg", vec![Term::nat(lrid), Term::nat(lasn), Term::nat(*r.pick(&[0u64, 3, 90, 180])), Term::atom(if ap { "t" } else { "f" })]),
+            Term::tag("popen", vec![Term::nat(rasn), Term::nat(*r.pick(&[0u16, 30, 90])), Term::nat(rrid)]),
+            Term::tag("acts", acts),
+            Term::atom(if late { "t" } else { "f" }),
+            Term::tag("opens", vec![]),
+            Term::tag("embs", vec![]),
+        ],
+    )
+}
+
 fn g_item(r: &mut Rng, big: bool) -> Term {
     loop {
         // half of the items are plain packet-level records (all kinds), half are daemon events
@@ -704,6 +1096,7 @@ fn g_item(r: &mut Rng, big: bool) -> Term {
                 return g_dump_many(r, n);
             }
             7 => return g_dump(r),
+            8 if r.chance(1, 8) => return g_live(r),
             8 => return g_flush(r),
             9 if r.chance(1, 2) => return g_dump(r),
             _ => return g_rec(r, big),
@@ -748,7 +1141,20 @@ fn verif_main() {
         return;
     }
     std::panic::set_hook(Box::new(|_| {}));
-    if std::env::var("VERIF_MODE").as_deref() == Ok("gen") {
+    if std::env::var("VERIF_MODE").as_deref() == Ok("live-debug") {
+        let rt = tokio::runtime::Builder::new_current_thread().enable_all().build().unwrap();
+        let cfg = LiveCfg { ap: true, lrid: 0x0a000009, lasn: 65009, lhold: 90, rasn: 4200000001, rhold: 30, rrid: 0x0a000001, late: true };
+        let acts = vec![(true, vec![0, 0, 0, 7, 24, 192, 0, 2]), (true, vec![0, 0, 0, 8, 24, 192, 0, 3]), (false, vec![0, 0, 0, 7, 24, 192, 0, 2])];
+        let o = rt.block_on(run_live(&cfg, &acts)).expect("live");
+        let mut txt = format!("sent_open {}\n", parse_back(&o.sent_open, false));
+        for l in describe_bmp(&o.early) {
+            txt += &format!("E {}\n", l);
+        }
+        for l in describe_bmp(&o.late) {
+            txt += &format!("L {}\n", l);
+        }
+        std::fs::write(&out, txt).unwrap();
+    } else if std::env::var("VERIF_MODE").as_deref() == Ok("gen") {
         let seed: u64 = std::env::var("VERIF_SEED").ok().and_then(|s| s.parse().ok()).unwrap_or(1);
         let n: usize = std::env::var("VERIF_N").ok().and_then(|s| s.parse().ok()).unwrap_or(100);
         let tier = std::env::var("VERIF_TIER").unwrap_or_else(|_| "quick".into());
